@@ -476,6 +476,77 @@ static char *serialise (struct yaep_tree_node *root, int *nterm)
 }
 
 
+/* hash of the DENOTATION of a result: independent of node sharing and of the order of alternatives (a list of alternatives
+   is hashed as the set of its members' hashes; exact for results without alternatives) */
+static struct yaep_tree_node **dh_key; static unsigned long *dh_val; static size_t dh_cap, dh_n;
+static unsigned long dh_mix (unsigned long h, unsigned long v) { h ^= v + 0x9e3779b97f4a7c15UL + (h << 6) + (h >> 2); return h * 1099511628211UL; }
+static int dh_cmp (const void *a, const void *b) { unsigned long x = *(const unsigned long *) a, y = *(const unsigned long *) b; return x < y ? -1 : x > y; }
+static unsigned long *dh_slot (struct yaep_tree_node *p, int *found)
+{
+  size_t i;
+  if (dh_n * 2 >= dh_cap)
+    {
+      size_t oc = dh_cap, j; struct yaep_tree_node **ok = dh_key; unsigned long *ov = dh_val;
+      dh_cap = dh_cap ? dh_cap * 2 : 8192;
+      dh_key = (struct yaep_tree_node **) __real_calloc (dh_cap, sizeof (void *)); dh_val = (unsigned long *) __real_calloc (dh_cap, sizeof (unsigned long));
+      for (j = 0; j < oc; j++) if (ok[j] != NULL) { size_t q = ((size_t) ok[j] >> 4) % dh_cap; while (dh_key[q] != NULL) q = (q + 1) % dh_cap; dh_key[q] = ok[j]; dh_val[q] = ov[j]; }
+      __real_free (ok); __real_free (ov);
+    }
+  i = ((size_t) p >> 4) % dh_cap;
+  while (dh_key[i] != NULL && dh_key[i] != p) i = (i + 1) % dh_cap;
+  *found = dh_key[i] == p;
+  if (!*found) { dh_key[i] = p; dh_n++; }
+  return &dh_val[i];
+}
+static unsigned long dh (struct yaep_tree_node *p, int depth)
+{
+  unsigned long h, *slot; int found, i;
+  const char *c;
+  if (p == NULL) return 7;
+  if (depth > 100000) return 13;
+  slot = dh_slot (p, &found);
+  if (found) return *slot;
+  *slot = 17;	/* value seen if the result is cyclic (reported elsewhere) */
+  switch (p->type)
+    {
+    case YAEP_NIL: h = 101; break;
+    case YAEP_ERROR: h = 103; break;
+    case YAEP_TERM:
+      h = dh_mix (107, (unsigned long) p->val.term.code);
+      h = dh_mix (h, (char *) p->val.term.attr >= tags && (char *) p->val.term.attr < tags + MAXW ? (unsigned long) ((char *) p->val.term.attr - tags) : 999999UL);
+      break;
+    case YAEP_ANODE:
+      h = 109;
+      for (c = p->val.anode.name; *c; c++) h = dh_mix (h, (unsigned char) *c);
+      h = dh_mix (h, (unsigned long) p->val.anode.cost);
+      for (i = 0; p->val.anode.children[i] != NULL; i++) h = dh_mix (h, dh (p->val.anode.children[i], depth + 1));
+      break;
+    case YAEP_ALT:
+      {
+	unsigned long *v = NULL; size_t n = 0, cap = 0, k; struct yaep_tree_node *a;
+	for (a = p; a != NULL && a->type == YAEP_ALT; a = a->val.alt.next)
+	  {
+	    if (n == cap) { cap = cap ? cap * 2 : 8; v = (unsigned long *) __real_realloc (v, cap * sizeof (unsigned long)); }
+	    v[n++] = dh (a->val.alt.node, depth + 1);
+	  }
+	qsort (v, n, sizeof (unsigned long), dh_cmp);
+	h = 113;
+	for (k = 0; k < n; k++) if (k == 0 || v[k] != v[k - 1]) h = dh_mix (h, v[k]);
+	__real_free (v);
+      }
+      break;
+    default: h = 127;
+    }
+  slot = dh_slot (p, &found);
+  *slot = h;
+  return h;
+}
+static unsigned long denotation_hash (struct yaep_tree_node *root)
+{
+  if (dh_cap) { memset (dh_key, 0, dh_cap * sizeof (void *)); dh_n = 0; }
+  return dh (root, 0);
+}
+
 static unsigned long fnv (const char *s) { unsigned long h = 1469598103934665603UL; for (; *s; s++) { h ^= (unsigned char) *s; h *= 1099511628211UL; } return h; }
 
 /* ---------------- hook sink ---------------- */
@@ -700,7 +771,8 @@ static void do_parse (int la, int one, int cost, int rec, int match, int dbg, in
       if (ntoks <= 64) for (i = 0; i < ntoks; i++) printf ("%s%d", i ? "," : "", toks_in[i]);
       {
 	int nt0 = 0; char *sr = root != NULL && root != (struct yaep_tree_node *) 0x1 ? serialise (root, &nt0) : yv_strdup ("");
-	printf ("],\"n\":%d,\"dbg\":%d,\"thash\":\"%lx\",\"nterm\":%d", ntoks, dbg, fnv (sr), nt0);
+	printf ("],\"n\":%d,\"dbg\":%d,\"thash\":\"%lx\",\"dhash\":\"%lx\",\"nterm\":%d", ntoks, dbg, fnv (sr),
+		root != NULL && root != (struct yaep_tree_node *) 0x1 ? denotation_hash (root) : 0UL, nt0);
 	__real_free (sr);
       }
       printf (",\"la\":%d,\"one\":%d,\"cost\":%d,\"rec\":%d,\"match\":%d,\"rc\":%d,\"root\":%d,\"amb\":%d,\"mp1\":%d,\"mp2\":%d,\"calls\":[", la, one, cost, rec, match, rc, root != NULL, amb != 0, mp1, mp2);
